@@ -732,11 +732,11 @@ func (am AnchorMatrix) sanitizeOffsets() error {
 }
 
 func (am AnchorMatrix) Anchor(index, class int) Anchor {
-	if len(am.records) < index {
+	if index < 0 || len(am.records) <= index {
 		return nil
 	}
 	offsets := am.records[index].offsets
-	if len(offsets) < class {
+	if class < 0 || len(offsets) <= class {
 		return nil
 	}
 	offset := offsets[class]
